@@ -42,9 +42,51 @@ def configs(tier):
     return ["A", "F"] if tier == "quick" else ["A", "F", "N", "FN"]
 
 
+def is_direct_write(t):
+    return t["callee"].get("name") == WRITE and "EventChannel" in t["callee"].get("path", "")
+
+
+def write_wrappers(facts):
+    """helper methods that write exactly their event parameter to the receiver's channel on every path:
+    path -> (arg index of the event, projection of the channel below the receiver)"""
+    cached = getattr(facts, "_c12_wrappers", None)
+    if cached is not None:
+        return cached
+    out = {}
+    for b in facts.bodies:
+        if b.kind == "Closure" or b.argc < 2 or (b.trait_item and b.trait_item.startswith((US, SG))):
+            continue
+        ws = [(bb, t) for bb, t in b.calls() if is_direct_write(t)]
+        if len(ws) != 1:
+            continue
+        bb, t = ws[0]
+        eo = b.arg_origin(bb, 1)
+        if eo[0] == "param" and not eo[2] and eo[1] >= 2 and b.must_pass(0, [bb])[0]:
+            roots = [r for r in b.roots(b.arg_origin(bb, 0)) if r[0] == "param" and r[1] == 1]
+            if roots:
+                out[b.path] = (eo[1] - 1, roots[0][2][:1])
+    facts._c12_wrappers = out
+    return out
+
+
 def writes(b):
+    """event-write sites of a body: direct single_write calls and calls of write-wrapper helpers (normalised to look like a direct write:
+    args[0] = receiver, args[1] = the event)"""
     live = b.live_blocks()
-    return [(bb, t) for bb, t in b.calls() if t["callee"].get("name") == WRITE and "EventChannel" in t["callee"].get("path", "") and bb in live]
+    wr = write_wrappers(b.facts)
+    out = []
+    for bb, t in b.calls():
+        if bb not in live:
+            continue
+        if is_direct_write(t):
+            out.append((bb, t))
+        else:
+            c = t["callee"]
+            p = c.get("resolved") if c.get("resolved") in wr else c.get("path")
+            if p in wr:
+                ai, proj = wr[p]
+                out.append((bb, dict(t, args=[t["args"][0], t["args"][ai]], _wrapper=proj)))
+    return out
 
 
 def run(ctx):
@@ -82,7 +124,7 @@ def check_emitting(ctx, facts, b, variant, id_org, channel_root, delegate_pred, 
         return
     wbb, wt = ws[0]
     # event aggregate
-    eo = b.arg_origin(wbb, 1)
+    eo = b.operand_origin(wt["args"][1])
     good = False
     detail = "event operand is not a ComponentEvent aggregate (%r)" % (eo,)
     if eo[0] == "agg":
@@ -97,9 +139,10 @@ def check_emitting(ctx, facts, b, variant, id_org, channel_root, delegate_pred, 
                 good = True
     ctx.ob(rule, key + " event = %s(id)" % variant, good, b.loc(wbb), "" if good else detail)
     # receiver rooted in the channel field
-    ro = b.arg_origin(wbb, 0)
+    ro = b.operand_origin(wt["args"][0])
     roots = b.roots(ro)
-    okc = any(r[0] == "param" and r[1] == 1 and r[2][:1] == (channel_root,) for r in roots)
+    okc = any(r[0] == "param" and r[1] == 1 and r[2][:1] == (channel_root,) for r in roots) or \
+        (wt.get("_wrapper") == (channel_root,) and any(r[0] == "param" and r[1] == 1 and not r[2] for r in roots))
     ctx.ob(rule, key + " writes the storage's own channel", okc, b.loc(wbb), "" if okc else "receiver roots %r" % (sorted(map(repr, roots)),))
     # guarded by the emission switch (R3)
     edges = emission_guard(b)
